@@ -124,6 +124,8 @@ Definition agent_eqb (a b : agent) : bool :=
    (the interpreter read <name>.py while a scheduler was between open("wt") and close) *)
 Inductive xcode := XOk | XFail | XNop.
 Inductive sfile := SEmpty | SFull.
+(* <name>.pid is created by open("w") and filled when the file object is closed: two steps *)
+Inductive pidfile := PFNone | PFEmpty | PFSome (p : nat).
 
 (* program counter of a job process = the next effect of TaskRunner.run *)
 Inductive ppc :=
@@ -167,14 +169,16 @@ Inductive spc :=
 | STrunc                       (* lock held; next: mkdir, params.json, open(script, "wt") *)
 | SWrite                       (* lock held; next: write + close the script *)
 | SSpawn                       (* lock held; next: Popen *)
-| SWritePid (p : nat)          (* lock held; next: write the pid file *)
+| SCreatePid (p : nat)         (* lock held; next: pidpath.open("w") creates/truncates the pid file *)
+| SWritePid (p : nat)          (* lock held; next: the JSON text reaches the pid file (close) *)
 | SUnlock (p : nat)            (* lock held; next: release the job lock *)
 | SWait (p : nat)              (* waits for the exit code of its child p *)
 | SFinal (v : view)            (* job.state is final in this instance *)
-| SDead.                       (* the instance died (or this job's coroutine was aborted) *)
+| SDead                        (* the instance died (or this job's coroutine was aborted) *)
+| SStuck.                      (* aio_submit raised: the job never becomes final, the experiment never ends *)
 
 Definition slocked (c : spc) : bool :=
-  match c with STrunc | SWrite | SSpawn | SWritePid _ | SUnlock _ => true | _ => false end.
+  match c with STrunc | SWrite | SSpawn | SCreatePid _ | SWritePid _ | SUnlock _ => true | _ => false end.
 (* an attempt is over: a new one may begin *)
 Definition sover (c : spc) : bool := match c with SIdle | SFinal _ | SDead => true | _ => false end.
 (* between a negative aio_process() and the write of the pid file *)
@@ -182,12 +186,12 @@ Definition sprelaunch (c : spc) : bool :=
   match c with STest2 false _ | SReady | SLock | STrunc | SWrite | SSpawn => true | _ => false end.
 (* the scheduler owns a child / an adopted process *)
 Definition schild (c : spc) : option nat :=
-  match c with SWritePid p | SUnlock p | SWait p | SAdopt p => Some p | _ => None end.
+  match c with SCreatePid p | SWritePid p | SUnlock p | SWait p | SAdopt p => Some p | _ => None end.
 
 Record jobdir := {
   done : bool;                 (* <name>.done *)
   failed : bool;               (* <name>.failed *)
-  pidf : option nat;           (* <name>.pid: the process it names *)
+  pidf : pidfile;              (* <name>.pid: absent, empty, or the process it names *)
   lock : option agent;         (* holder of the lock on <name>.lock *)
   script : sfile;              (* <name>.py *)
   procs : nat -> ppc;
@@ -213,7 +217,7 @@ Definition set_failed (st : jobdir) (v : bool) : jobdir :=
      procs := procs st; nprocs := nprocs st; scheds := scheds st; body_runs := body_runs st;
      body_active := body_active st; inflight := inflight st; launches := launches st;
      succ := succ st; aborts := aborts st; done0 := done0 st |}.
-Definition set_pidf (st : jobdir) (v : option nat) : jobdir :=
+Definition set_pidf (st : jobdir) (v : pidfile) : jobdir :=
   {| done := done st; failed := failed st; pidf := v; lock := lock st; script := script st;
      procs := procs st; nprocs := nprocs st; scheds := scheds st; body_runs := body_runs st;
      body_active := body_active st; inflight := inflight st; launches := launches st;
@@ -270,6 +274,7 @@ Inductive label :=
 | LTrunc (s : nat)
 | LWrite (s : nat)
 | LSpawn (s : nat)
+| LCreatePid (s : nat)
 | LWritePid (s : nat)
 | LSUnlock (s : nat)
 | LWaitEnd (s : nat)     (* the child is gone: exit code read *)
@@ -290,14 +295,16 @@ Inductive label :=
 Definition lbl_sched (l : label) : option nat :=
   match l with
   | LSubmit s | LTest1 s | LPid s | LAdoptEnd s | LTest2 s | LReady s | LDepFail s | LSLock s
-  | LTrunc s | LWrite s | LSpawn s | LWritePid s | LSUnlock s | LWaitEnd s | LCrash s => Some s
+  | LTrunc s | LWrite s | LSpawn s | LCreatePid s | LWritePid s | LSUnlock s | LWaitEnd s | LCrash s => Some s
   | _ => None
   end.
 
 Definition view_of_code (c : xcode) : view := match c with XFail => VError | _ => VDone end.
 
-(* The transition function: None = the effect is not enabled in this state. *)
-Definition lstep (l : label) (st : jobdir) : option jobdir :=
+(* The transition function: None = the effect is not enabled in this state.
+   [fixed] = aio_process() treats a pid file without content as "no process information"
+   (true: repaired code; false: the pinned code, where json.loads("") raises inside aio_submit). *)
+Definition lstep_with (fixed : bool) (l : label) (st : jobdir) : option jobdir :=
   match l with
   | LSubmit s => if sover (scheds st s) then Some (set_sched st s STest1) else None
   | LTest1 s =>
@@ -306,9 +313,10 @@ Definition lstep (l : label) (st : jobdir) : option jobdir :=
       match scheds st s with
       | SPid d =>
           match pidf st with
-          | Some p => if alive (procs st p) then Some (set_sched st s (SAdopt p))
-                      else Some (set_sched st s (STest2 false d))
-          | None => Some (set_sched st s (STest2 false d))
+          | PFSome p => if alive (procs st p) then Some (set_sched st s (SAdopt p))
+                        else Some (set_sched st s (STest2 false d))
+          | PFNone => Some (set_sched st s (STest2 false d))
+          | PFEmpty => if fixed then Some (set_sched st s (STest2 false d)) else Some (set_sched st s SStuck)
           end
       | _ => None
       end
@@ -337,11 +345,13 @@ Definition lstep (l : label) (st : jobdir) : option jobdir :=
   | LWrite s => match scheds st s with SWrite => Some (set_sched (set_script st SFull) s SSpawn) | _ => None end
   | LSpawn s =>
       match scheds st s with
-      | SSpawn => Some (set_sched (new_proc st) s (SWritePid (nprocs st)))
+      | SSpawn => Some (set_sched (new_proc st) s (SCreatePid (nprocs st)))
       | _ => None
       end
+  | LCreatePid s =>
+      match scheds st s with SCreatePid p => Some (set_sched (set_pidf st PFEmpty) s (SWritePid p)) | _ => None end
   | LWritePid s =>
-      match scheds st s with SWritePid p => Some (set_sched (set_pidf st (Some p)) s (SUnlock p)) | _ => None end
+      match scheds st s with SWritePid p => Some (set_sched (set_pidf st (PFSome p)) s (SUnlock p)) | _ => None end
   | LSUnlock s =>
       match scheds st s with
       | SUnlock p => Some (set_sched (set_lock st (release (ASched s) (lock st))) s (SWait p))
@@ -404,7 +414,7 @@ Definition lstep (l : label) (st : jobdir) : option jobdir :=
   | LWriteFailed p =>
       match procs st p with PWriteFailed => Some (set_proc (set_failed st true) p (PRmPid XFail)) | _ => None end
   | LRmPid p =>
-      match procs st p with PRmPid c => Some (set_proc (set_pidf st None) p (PUnlock c)) | _ => None end
+      match procs st p with PRmPid c => Some (set_proc (set_pidf st PFNone) p (PUnlock c)) | _ => None end
   | LPUnlock p =>
       match procs st p with
       | PUnlock c => Some (set_proc (set_lock st (release (AProc p) (lock st))) p (PExit c))
@@ -423,6 +433,9 @@ Definition lstep (l : label) (st : jobdir) : option jobdir :=
       else None
   end.
 
+Definition lstep := lstep_with true.
+Definition lstep_prefix := lstep_with false.     (* literal pinned code, kept for the refutation *)
+
 Definition step (st : jobdir) (l : label) (st' : jobdir) : Prop := lstep l st = Some st'.
 
 Inductive steps : jobdir -> list label -> jobdir -> Prop :=
@@ -435,6 +448,18 @@ Fixpoint run_labels (tr : list label) (st : jobdir) : option jobdir :=
   | [] => Some st
   | l :: tr' => match lstep l st with Some st1 => run_labels tr' st1 | None => None end
   end.
+Fixpoint run_labels_prefix (tr : list label) (st : jobdir) : option jobdir :=
+  match tr with
+  | [] => Some st
+  | l :: tr' => match lstep_prefix l st with Some st1 => run_labels_prefix tr' st1 | None => None end
+  end.
+
+(* an effect that makes the job advance: anything but a death, a kill, or a new submission *)
+Definition progress_label (l : label) : bool :=
+  match l with LCrash _ | LKill _ | LSubmit _ => false | _ => true end.
+(* the coroutine of scheduler s for this job is neither over nor waiting for dependencies *)
+Definition sbusy (c : spc) : bool :=
+  match c with SIdle | SFinal _ | SDead | SReady => false | _ => true end.
 
 (* A workspace before any scheduler or job process exists: arbitrary files, no process,
    no lock holder.                                                                     *)
@@ -442,10 +467,10 @@ Definition initial (st : jobdir) : Prop :=
   (forall p, procs st p = PNone) /\ nprocs st = 0 /\ (forall s, scheds st s = SIdle) /\
   lock st = None /\ body_runs st = 0 /\ body_active st = 0 /\ inflight st = 0 /\ launches st = 0 /\
   succ st = 0 /\ aborts st = 0 /\ done0 st = done st /\
-  (pidf st = None).   (* a stale pid file is the same as none: nothing alive is named; no pid reuse *)
+  (pidf st = PFNone).   (* a stale pid file is the same as none: nothing alive is named; no pid reuse *)
 
 Definition mk_initial (d f : bool) (sc : sfile) : jobdir :=
-  {| done := d; failed := f; pidf := None; lock := None; script := sc;
+  {| done := d; failed := f; pidf := PFNone; lock := None; script := sc;
      procs := fun _ => PNone; nprocs := 0; scheds := fun _ => SIdle;
      body_runs := 0; body_active := 0; inflight := 0; launches := 0; succ := 0; aborts := 0; done0 := d |}.
 Definition fresh : jobdir := mk_initial false false SEmpty.
@@ -531,3 +556,39 @@ Definition deps_one : nat -> list nat := fun _ => [].
 Definition deps_chain2 : nat -> list nat := fun j => match j with 1 => [0] | _ => [] end.
 Definition deps_indep2 : nat -> list nat := fun _ => [].
 Definition gfresh0 : gstate := {| jd := fun _ => fresh |}.
+
+(* ------------------------------------------------------------------ executable composition *)
+Definition is_vdone (c : spc) : bool := match c with SFinal VDone => true | _ => false end.
+Definition is_verror (c : spc) : bool := match c with SFinal VError => true | _ => false end.
+
+(* one move of the composed system: an effect on job j, or the death of scheduler s *)
+Inductive gmove := GOn (j : nat) (l : label) | GDie (s : nat).
+
+Definition gexec (deps : nat -> list nat) (m : gmove) (g : gstate) : option gstate :=
+  match m with
+  | GDie s => Some {| jd := fun j => match lstep (LCrash s) (jd g j) with Some st' => st' | None => jd g j end |}
+  | GOn j l =>
+      let ok :=
+        match l with
+        | LReady s => forallb (fun d => is_vdone (scheds (jd g d) s)) (deps j)
+        | LDepFail s => existsb (fun d => is_verror (scheds (jd g d) s)) (deps j)
+        | _ => true
+        end in
+      if ok then match lstep l (jd g j) with
+                 | Some st' => Some {| jd := upd (jd g) j st' |}
+                 | None => None
+                 end
+      else None
+  end.
+
+Fixpoint grun (deps : nat -> list nat) (ms : list gmove) (g : gstate) : option gstate :=
+  match ms with
+  | [] => Some g
+  | m :: ms' => match gexec deps m g with Some g1 => grun deps ms' g1 | None => None end
+  end.
+
+Definition gmove_single (m : gmove) : bool :=
+  match m with
+  | GDie s => Nat.eqb s 0
+  | GOn _ l => match lbl_sched l with Some s => Nat.eqb s 0 | None => true end
+  end.
